@@ -176,10 +176,69 @@ func c02Gate(c *Ctx) {
 	}
 }
 
+// c02Resolve: two committed branches hold different values for one key; POST resolve (conflict deletion before a
+// merge) names one or two data instances, the conflicted one first or second.  Whatever it does to make the merge
+// possible has to happen in new versions: every read at the two committed parents must stay as it was.
+func c02Resolve(c *Ctx) {
+	for _, order := range [][]string{{"kv2"}, {"kv2", "kv1"}, {"kv1", "kv2"}} {
+		func() {
+			OpenServer()
+			defer CloseServer()
+			root := NewRepo()
+			NewInstance(root, "keyvalue", "kv1", nil)
+			NewInstance(root, "keyvalue", "kv2", nil)
+			Post("node/"+root+"/kv1/key/x", []byte("root x"))
+			Post("node/"+root+"/kv2/key/k", []byte("root k"))
+			Post("node/"+root+"/kv2/key/only", []byte("root only"))
+			Commit(root)
+			a, ra := Branch(root, "brA")
+			b, rb := Branch(root, "brB")
+			if !ra.OK() || !rb.OK() {
+				return
+			}
+			Post("node/"+a+"/kv2/key/k", []byte("from A"))
+			Post("node/"+b+"/kv2/key/k", []byte("from B"))
+			Post("node/"+b+"/kv1/key/y", []byte("y at B"))
+			Commit(a)
+			Commit(b)
+			reads := []string{"kv1/keys", "kv1/key/x", "kv1/key/y", "kv2/keys", "kv2/key/k", "kv2/key/only", "kv2/keyrangevalues/a/z?json=true"}
+			snap := func() map[string]string {
+				m := map[string]string{}
+				for _, u := range []string{root, a, b} {
+					for _, p := range reads {
+						r := Get("node/" + u + "/" + p)
+						m[map[string]string{root: "root", a: "A", b: "B"}[u]+":"+p] = fmt.Sprintf("%d %s", r.Code, strings.ReplaceAll(string(r.Body), u, "<uuid>"))
+					}
+				}
+				return m
+			}
+			before := snap()
+			body, _ := json.Marshal(map[string]interface{}{"data": order, "parents": []string{a, b}, "note": "r"})
+			resp := Post("repo/"+root+"/resolve", body)
+			after := snap()
+			c.Eval(fmt.Sprintf("resolve %v -> %d", order, resp.Code), true)
+			c.Count("stability.resolve")
+			var ks []string
+			for k := range before {
+				ks = append(ks, k)
+			}
+			sort.Strings(ks)
+			for _, k := range ks {
+				if before[k] != after[k] {
+					c.Report("O", "C02 committed-read-changed by-resolve", "a read at a committed version changed after a resolve request",
+						fmt.Sprintf("root: kv1/x, kv2/k, kv2/only written and committed; branch A: kv2/k := from A; branch B: kv2/k := from B, kv1/y; both committed\nPOST repo/<root>/resolve {data: %v, parents: [A, B]} -> %s\nGET %s\n  before: %s\n  after:  %s", order, resp, k, before[k], after[k]))
+					return
+				}
+			}
+		}()
+	}
+}
+
 var c02VerRe = regexp.MustCompile(`version [0-9]+`)
 var c02HexRe = regexp.MustCompile(`[0-9a-f]{32}`)
 
 func c02Stability(c *Ctx) {
+	c02Resolve(c)
 	nh, steps := 3, 40
 	if c.Thorough {
 		nh, steps = 30, 60
